@@ -83,6 +83,11 @@ CHECKS = {
             "Every set of 0..2 (quick) / 0..3 (thorough) items from {write A, write B (append), read, unknown tool, invalid args} x 4 argument-delivery variants x output_index {in order, reversed, missing} x duplicates {none, repeated done, shared call id} x {[DONE], none} x item ids {present, missing} x 7 tool_choice settings (3 for two-item scripts in quick) x both history modes, plus an endless-call script: request k+1 must answer exactly the completed call ids once each in output order, each permitted call must run exactly once (append markers), a barred tool must leave only the denial pair and no file effect, <= 32 executions per run, every received request must be a valid streaming payload, invalid configurations must send nothing, and stateless inputs must extend.",
             "Script alphabet bounds; for two items sharing one call id only 'at most one execution / one answer for that id' is judged (which item survives is undefined); exact argument bytes are checked only through the markers and the superseded-delta probe.",
             "DESIGN.md §3 C16"),
+    "C19": ("P", "exploration",
+            "full product of secret-supply configurations x run outcomes, one subprocess with a cleared environment per configuration, through the production router against the scripted provider; canary search over every persisted byte, response and process output",
+            "12 secret sources (three env variables incl. the endpoint-substring selected ones, inline api_key in the global / RIP_CONFIG / project / parent-project layer, {env: NAME} indirection, secret header, header + key, malformed header value / name) x 5 outcomes (success with a tool call, HTTP 401 echoing the request body, transport error, HTTP 500, tool failure) x request dump (thorough: on/off) x per-request overrides (thorough); the engine is built with OpenResponsesConfig::from_env() as serve does; the canary (raw, base64, percent-encoded) must be absent from every file under the data dir and workspace .rip/, /config/doctor, the session frames, error responses and stdout/stderr; the provider must have received it (vacuity guard); doctor must report presence and source.",
+            "Decides the property for the enumerated configuration x outcome product only (an information-flow statement over all formatting paths cannot be closed by enumeration); SSE delivery is represented by the session's log frames.",
+            "DESIGN.md §3 C19"),
     "C20": ("H-bfs", "model_checking",
             "explicit-state BFS over the real TuiState::update transition function with state dedup",
             "All states reachable within the depth bound from the initial TuiState, over a frame alphabet covering every surface-relevant kind x seq {0,1,2,5,u64::MAX} x 9 capacity settings, are enumerated by executing the real update function; no-panic, bounds, lookup exactness and fold determinism are checked in every state, render on every new state up to a smaller depth.",
